@@ -81,12 +81,14 @@ class LotkaVolterraOscillating:
         while num_remaining_samples > 0:
             candidate_samples = self._gaussian.sample((num_remaining_samples,))
 
-            uniform_log_prob = self._uniform.log_prob(candidate_samples)
+            # (log_prob of an out-of-box candidate raises under argument validation, which is
+            # the default in current PyTorch; ask the support directly instead.)
+            inside_box = self._uniform.support.check(candidate_samples)
 
-            accepted_samples = candidate_samples[~torch.isinf(uniform_log_prob)]
+            accepted_samples = candidate_samples[inside_box]
             samples.append(accepted_samples.detach())
 
-            num_accepted = (~torch.isinf(uniform_log_prob)).sum().item()
+            num_accepted = inside_box.sum().item()
             num_remaining_samples -= num_accepted
 
         # Aggregate collected samples.
